@@ -65,7 +65,7 @@ CLAIMS["C10"] = dict(level="model_checking", tech="TLA+ definitions of the stand
          "function's definition restricted to the first dmax (and slen) elements; TLC enumerates all operand pairs over a small alphabet (case pair, "
          "high-bit byte, digit, blank) with lengths 0..K and dmax/slen below, at and above the string lengths, checks C10_T (operands unmodified, "
          "antisymmetry of comparisons) and every call is executed with both operands flush against inaccessible pages and judged by TraceArena.tla",
-    ref="§3 C10", note=ARENA_NOTE + "; strnatcmp_s/wcsnatcmp_s/wcsicmp_s/wcscoll_s have no oracle here")
+    ref="§3 C10", note=ARENA_NOTE + "; wcsicmp_s by lower-case folding over the arena alphabet, the natural-order functions by StrQuery!NatCmp (Martin Pool's algorithm transcribed); wcscoll_s has no oracle here")
 CLAIMS["C12"] = dict(level="model_checking", tech="TLA+ interleaving model of scratch storage (Threads.tla) checked by TLC + per-call static-footprint observation of the library's .data/.bss validated by TraceThreads.tla",
     text="TLC explores all interleavings of threads whose calls stage intermediate values in automatic or static scratch: NonInterference holds iff no "
          "function uses static scratch; the code is bound to that premise by the property's schedule-independent formulation: for every probe (each "
